@@ -266,8 +266,11 @@ def run(run):
         for (_w, vid, proto, sup) in hist:
             ctx = C.ConnectionContext(protocol_version=proto)
             try:
-                wrong = not ctx.protocol_later_eq(0) or \
-                    ctx.protocol_earlier(proto)
+                # (reflexive facts only: a generated history may insert the
+                # new version anywhere, even before protocol 0)
+                wrong = not ctx.protocol_later_eq(proto) or \
+                    not ctx.protocol_earlier_eq(proto) or \
+                    ctx.protocol_earlier(proto) or ctx.protocol_later(proto)
             except Exception:
                 wrong = True
             if wrong:
